@@ -270,11 +270,12 @@ func propSpecs() map[string]*PropSpec {
 				{Name: "H11a", Label: "long-tokens", ThoroughOnly: true, Thorough: P{"t": 2, "b": 5, "anytype": 1}, Reach: []string{"roundtrip", "non-ascii"}},
 				{Name: "H11a", Label: "many-tokens", Quick: P{"t": 5, "b": 1}, Thorough: P{"t": 5, "b": 2}, Reach: []string{"roundtrip"}},
 				{Name: "H11b", Reach: []string{"indexed", "roundtrip", "refused"}},
+				{Name: "H11c", Quick: P{"L": 2}, Thorough: P{"L": 3}, Reach: []string{"generated", "roundtrip"}},
 			},
 			Bounds: map[string]string{
 				"H11a":    "token sequences of 1..t tokens, each 1..b arbitrary bytes assumed valid UTF-8 (utf8.ValidString executed symbolically, so every mixture of 1- to 4-byte characters arises), type byte symbolic in {0,1} (quick) or any uint8 (thorough); quick t=3,b=3; thorough t=3,b=3 any type, t=2,b=5 any type, t=5,b=2",
 				"H11b":    "one token of 254, 255 and 256 characters (ASCII with symbolic bytes, and two-byte characters with a symbolic second byte), alone or followed by a separator and an atom",
-				"outside": "more than 5 tokens; symbolic tokens longer than 5 bytes other than the 254..256-character boundary tokens; generated passwords are covered through C02..C05's harnesses once those run the round trip (H11c)",
+				"outside": "more than 5 tokens; symbolic tokens longer than 5 bytes other than the 254..256-character boundary tokens; H11c runs generated passwords (four word lists incl. non-ASCII, three schemes, five separators incl. a functional non-ASCII one; three character recipes) through the round trip with symbolic draws",
 			},
 			Assume: commonAssume,
 		},
